@@ -256,6 +256,9 @@ class LayerRuleMatcher(RuleMatcher):
                 )
 
             else:
-                result = result + module_name_conversion_mapping[module.identifier]
+                # regex layers that the rule does not mention have not been converted
+                result = result + module_name_conversion_mapping.get(
+                    module.identifier, []
+                )
 
         return result
